@@ -131,6 +131,13 @@ func (m *Machine) callValue(f Value, args []Value, site ssa.Instruction) Value {
 	panic(fmt.Sprintf("callValue: cannot call %T", f))
 }
 
+// callFnNoIntrinsic interprets fn's source although an intrinsic is registered for it (used by
+// intrinsics that only model the symbolic case).
+func (m *Machine) callFnNoIntrinsic(fn *ssa.Function, args []Value) Value {
+	m.noIntr = fn
+	return m.callFn(fn, args, nil)
+}
+
 func (m *Machine) callFn(fn *ssa.Function, args []Value, env []Value) Value {
 	if len(m.frames) > 400 {
 		m.abort("budget", "call depth exceeded")
@@ -141,10 +148,11 @@ func (m *Machine) callFn(fn *ssa.Function, args []Value, env []Value) Value {
 			return h(m, args)
 		}
 	}
-	if in, ok := lookupIntrinsic(m, fn, name); ok {
+	if in, ok := lookupIntrinsic(m, fn, name); ok && m.noIntr != fn {
 		m.Stats.Intrinsics[name]++
 		return in(m, fn, args)
 	}
+	m.noIntr = nil
 	if fn.Blocks == nil {
 		m.unsupported("function without body: " + name)
 	}
